@@ -188,6 +188,20 @@ func c11Receivers(quick bool) []c11Recv {
 			return s
 		}})
 	}
+	// identifiers assigned through SetID's keywords (a random one, the address): assigned once, reported ever after
+	for mode := 0; mode < 4; mode++ {
+		mode := mode
+		out = append(out, c11Recv{fmt.Sprintf("AND/keyword-ids/mode%d", mode), func() any {
+			s := stackage.And().SetID("_random").Push("a", stackage.Or().SetID("_RANDOM").Push("n"), stackage.Cond("k", stackage.Eq, "v").SetID("_random"), stackage.List().SetID("_addr").Push("l"))
+			if mode&1 != 0 {
+				s.SetMutex()
+			}
+			if mode&2 != 0 {
+				s.SetReadOnly(true)
+			}
+			return s
+		}})
+	}
 	// closures that are scheduling points (see schedUserPoint): under the controlled scheduler other
 	// threads run while one caller is inside user code in the middle of a query
 	for _, k := range []string{"AND", "LIST"} {
@@ -253,6 +267,9 @@ func c11Receivers(quick bool) []c11Recv {
 					s.SetReadOnly(true)
 				}
 				return s
+			}},
+			c11Recv{fmt.Sprintf("Condition/keyword-ids/mode%d", mode), func() any {
+				return ro(stackage.Cond("kw", stackage.Eq, stackage.And().SetID("_random").Push("x")).SetID("_Random"))
 			}},
 			c11Recv{fmt.Sprintf("Condition/alias-expr/mode%d", mode), func() any {
 				return ro(stackage.Cond("kw", userOp{"~=", "ctx"}, StackAliasS(stackage.List().Push("p", "q"))))
@@ -577,7 +594,7 @@ func contentText(res []reflect.Value) string {
 func c11Repeat(c *Ctx, recvs []c11Recv) {
 	const reps = 6000
 	for _, rv := range recvs {
-		if !strings.Contains(rv.Name, "/closures/") && !strings.HasSuffix(rv.Name, "content2/mode1/cfg1") && !strings.HasPrefix(rv.Name, "Condition/stack/mode0") {
+		if !strings.Contains(rv.Name, "/closures/") && !strings.Contains(rv.Name, "/keyword-ids/") && !strings.HasSuffix(rv.Name, "content2/mode1/cfg1") && !strings.HasPrefix(rv.Name, "Condition/stack/mode0") {
 			continue
 		}
 		x := rv.Mk()
@@ -643,8 +660,8 @@ func c11Residue(c *Ctx, recvs []c11Recv) {
 	}
 	parallelFor(len(recvs), func(i int) {
 		rv := recvs[i]
-		if strings.Contains(rv.Name, "/spy/") || strings.Contains(rv.Name, "/closures/") {
-			return // their leaves keep logs / yield to a scheduler
+		if strings.Contains(rv.Name, "/spy/") || strings.Contains(rv.Name, "/closures/") || strings.Contains(rv.Name, "/keyword-ids/") {
+			return // their leaves keep logs / yield to a scheduler; two builds draw different random identifiers
 		}
 		x, twin := rv.Mk(), rv.Mk()
 		calls := c11Calls(x)
